@@ -20,7 +20,7 @@ import subprocess
 import sys
 import time
 
-VERIF = "/verif"
+VERIF = os.path.dirname(os.path.dirname(os.path.abspath(__file__)))
 LEAN = f"{VERIF}/lean"
 HARNESS = f"{VERIF}/harness"
 ALLOWED_AXIOMS = {"propext", "Classical.choice", "Quot.sound"}
@@ -51,6 +51,8 @@ def sh(cmd, cwd=None, timeout=None, env=None, log=None):
     t0 = time.time()
     e = dict(os.environ)
     e.setdefault("CARGO_NET_OFFLINE", "true")
+    e["VERIF_ROOT"] = VERIF
+    e["SLMODEL"] = f"{LEAN}/.lake/build/bin/slmodel"
     if env:
         e.update(env)
     try:
